@@ -492,6 +492,11 @@ def plan_C17(ctx):
             p = subprocess.run([bins[prof], "hist", allh, outp, "--events", ev, "--lines", exl, "--seed", str(ctx.seed), "--reps", "20" if ctx.deep else "5"], stdout=sof, stderr=subprocess.PIPE)
         if p.returncode != 0:
             raise ToolError("harness hist failed: " + p.stderr.decode()[-2000:])
+        # "its only externally visible effect is the single line written by each evaluated log": nothing on standard error
+        errtxt = p.stderr.decode("utf-8", "replace").strip()
+        if errtxt:
+            ctx.verdicts.add({"kind": "mismatch", "why": "the calls wrote to standard error (%d lines), first line: %s" % (len(errtxt.splitlines()), errtxt.splitlines()[0][:200]),
+                              "sc": ["C17"], "rule": "(all histories)", "data": "", "expected": "nothing on standard error", "actual": errtxt[:300], "profile": prof}, "histories-stderr/" + prof)
         summary, mism = None, []
         for line in open(outp):
             r = json.loads(line)
